@@ -138,3 +138,167 @@ NOT_APPLICABLE = {
             "TLA+ state-machine specification has nothing to enumerate there; the spec treats the codec as an environment "
             "function (DESIGN.md section 9). bincode/postcard are only exercised incidentally through the C07 drivers."),
 }
+
+PROPS["C01"] = {
+    "level": "model_checking",
+    "monitors": ["C01"],
+    "exhaustive": True,
+    "mc": [
+        {"module": "MC_C01", "cfg": "MC_C01.cfg", "workers": 8, "timeout": 1500,
+         "what": "COMPLETE for the abstract domain: all 784 membership tables over 2 addresses x 3 generations x "
+                 "incarnations {0,1,MAX} x 3 states; monotonicity, join, pairwise commutation, idempotence, "
+                 "self re-application, cached active count for every update / pair of updates; state exchange for "
+                 "every pair of tables"},
+    ],
+    "drivers": {
+        "quick": [{"args": ["c01"], "shards": 2}, rnd(["--codecs", "fixed"], 2)],
+        "thorough": [{"args": ["c01", "--thorough"], "shards": 6}, rnd(["--codecs", ALLC, "--forge", "--junk"], 6, runs=60, steps=400)],
+    },
+    "goals": {"cov_nontrivial": {"quick": 1000, "thorough": 10000}},
+}
+TEXT["C01"] = {
+    "level_text": ("TLC enumerates the membership component of the specification (spec/Members.tla, a line-by-line "
+                   "transcription of member.rs) COMPLETELY for the abstract domain: every table over 2 addresses x 3 "
+                   "generations x incarnations {0,1,MAX} x {Alive,Suspect,Down} (784 tables) against every update and every "
+                   "pair of updates (monotone in the precedence order; result = join; pairwise commutation and idempotence "
+                   "modulo the incarnation stored next to Down, which by induction gives every permutation and "
+                   "multiplicity; self re-application is the identity) and every pair of tables for the two-way "
+                   "state-exchange clause. The real Foca::apply_many is then driven through all ordered pairs over boundary "
+                   "incarnations {0,1,65534,65535}, random multisets in all (<=120/720) permutations with duplications, "
+                   "self re-application and two-instance exchanges; every call is checked for one-step conformance with the "
+                   "specification and the lattice monitor (spec/MonC01.tla) is evaluated on every call and every group."),
+    "level_note": NODE_NOTE + " The complete enumeration uses IncMax=2 as the saturation point; the code's u16 boundaries "
+                  "are exercised by the driver, not by the model.",
+    "technique": "TLA+ spec + TLC complete enumeration of the membership lattice (MC_C01) + permutation/exchange driver on Foca::apply_many with trace validation (MonC01)",
+}
+
+PROPS["C15"] = {
+    "level": "model_checking",
+    "monitors": ["C15"],
+    "mc": node_mc("C15"),
+    "drivers": node_drivers(3, 12, [["--codecs", ALLC], ["--codecs", "var,fixed", "--forge", "--junk"]]),
+}
+TEXT["C15"] = node_text("The backlog accounting uses the hook's per-entry remaining transmissions (admitted by the property as a "
+                        "cross-check) against the update sections of the datagrams; packet sizes from one-update-fits to "
+                        "everything-fits and fixed/variable update sizes are part of the driver's configuration space.",
+                        "TLA+ spec + TLC (MC_Node invariant MonC15, Backlog!FillOk) + trace validation")
+
+
+# ------------------------------------------------------------------------------------------------
+# cluster-level properties: simulator drivers + MonCluster on Trace_Cluster
+
+def cl(driver, extra=None, shards=1, **kw):
+    d = {"args": [driver] + (extra or []), "shards": shards, "spec": "Trace_Cluster", "cfg": "Trace_Cluster.cfg",
+         "conformance": False}
+    d.update(kw)
+    return d
+
+
+# complete (non-lite) cluster traces, checked for one-step conformance per node by Trace_Node
+def cl_full(driver, extra=None, shards=1):
+    return {"args": [driver, "--full"] + (extra or []), "shards": shards}
+
+
+CLUSTER_NOTE = ("Trusted base: TLC; the cluster simulator of the harness (integer clock, one event queue, latencies, "
+                "fault injection) - it is the environment the property quantifies over, so its own correctness is "
+                "assumed; the monitor's fixed bounds where the statement only says 'bounded'/'linear' (DESIGN.md "
+                "section 7). The fault points are enumerated by the driver on real instances; the configurations, "
+                "seeds and latencies are sampled.")
+
+PROPS["C02"] = {
+    "level": "exploration",
+    "monitors": ["C02"],
+    "mc": [],
+    "drivers": {
+        "quick": [cl("c02", ["--runs", "60", "--nmax", "8"], 4), cl_full("c02", ["--runs", "6", "--nmax", "5"], 1)],
+        "thorough": [cl("c02", ["--runs", "250", "--nmax", "16"], 12), cl_full("c02", ["--runs", "20", "--nmax", "6"], 4)],
+    },
+    "goals": {"cov_informative": {"quick": 150, "thorough": 2000}},
+}
+PROPS["C03"] = {
+    "level": "fault_enumeration",
+    "monitors": ["C03"],
+    "mc": [],
+    "drivers": {
+        "quick": [cl("c03", [], 3)],
+        "thorough": [cl("c03", ["--thorough"], 6)],
+    },
+    "goals": {"cov_crash": {"quick": 100, "thorough": 2000}, "cov_leave": {"quick": 100, "thorough": 2000}},
+}
+PROPS["C04"] = {
+    "level": "fault_enumeration",
+    "monitors": ["C04"],
+    "mc": [],
+    "drivers": {
+        "quick": [cl("c04", [], 3)],
+        "thorough": [cl("c04", ["--thorough"], 6)],
+    },
+    "goals": {"cov_drop_Ping": {"quick": 50}, "cov_drop_Ack": {"quick": 50}, "cov_drop_PingReq": {"quick": 1},
+              "cov_drop_IndirectPing": {"quick": 1}, "cov_drop_IndirectAck": {"quick": 1},
+              "cov_drop_ForwardedAck": {"quick": 1}, "cov_drop_Gossip": {"quick": 1}},
+}
+PROPS["C05"] = {
+    "level": "exploration",
+    "monitors": ["C05"],
+    "mc": [],
+    "drivers": {
+        "quick": [cl("c05", [], 3)],
+        "thorough": [cl("c05", ["--thorough"], 8)],
+    },
+    "goals": {"cov_informative": {"quick": 60, "thorough": 400}},
+}
+PROPS["C18"] = {
+    "level": "exploration",
+    "monitors": ["C18"],
+    "mc": [],
+    "drivers": {
+        "quick": [cl("c18", [], 3), cl_full("c18", [], 1)],
+        "thorough": [cl("c18", ["--thorough"], 8), cl_full("c18", [], 4)],
+    },
+    "goals": {"cov_informative": {"quick": 1000, "thorough": 10000}},
+}
+
+
+def cluster_text(what, technique):
+    return {
+        "level_text": what,
+        "level_note": CLUSTER_NOTE,
+        "technique": technique,
+    }
+
+
+TEXT["C02"] = cluster_text(
+    "N real instances (2..8 quick, 2..16 thorough) run in the harness' cluster simulator with random join orders and seed "
+    "members, latencies below probe_rtt/4, random fan-out, max_transmissions 1..10, periodic gossip/announce on or off and "
+    "packet sizes from just-feeds-the-cluster to 1400 (smaller ones for the zero-false-suspicion clause only). TLC evaluates "
+    "the C02 monitor of spec/MonCluster.tla on every recorded call (no error, no MemberDown/Idle/Defunct/Rejoin, no live member "
+    "recorded Suspect/Down) and the discovery clause at (4n+10) probe periods after the last join, split into told-but-not-listed / "
+    "dissemination-pending / epidemic-extinct. A few complete runs are also validated for per-node one-step conformance "
+    "with FocaNode!Step.",
+    "cluster simulator on real instances + TLA+ monitor (MonCluster!C02) evaluated by TLC on the traces; per-node conformance with the TLA+ spec")
+TEXT["C03"] = cluster_text(
+    "For formed clusters of 2..5 (..8) real instances the driver crashes or makes leave every sampled non-empty proper subset at "
+    "EVERY event index (quick: every 3rd) of a window covering one full rotation, and runs to the statement's own bound "
+    "(2n+1) periods + suspect_to_down_after. TLC evaluates MonCluster!C03 on every call: MemberDown for every failed member at every "
+    "survivor that listed it within the bound, no survivor declared Down, the leaver's gossip reported in the very call that "
+    "processed it, no Ack from the leaver.",
+    "fault enumeration in the cluster simulator (crash/leave at every event index) + TLA+ monitor (MonCluster!C03) evaluated by TLC")
+TEXT["C04"] = cluster_text(
+    "For formed clusters of 2..4 (..8) real instances, with notify_down_members on/off, renewable/non-renewable identities and two "
+    "latency regimes (so that indirect probing runs routinely), the driver re-runs the cluster once per datagram index of a window "
+    "of 2n probe periods, dropping exactly that datagram (Ping, Ack, PingReq, IndirectPing, IndirectAck, ForwardedAck, Gossip). "
+    "TLC evaluates MonCluster!C04: no MemberDown/Defunct/Rejoin anywhere, everyone Alive everywhere by "
+    "suspect_to_down_after + (2n+2) periods after the drop.",
+    "fault enumeration in the cluster simulator (every single datagram of a window dropped) + TLA+ monitor (MonCluster!C04) evaluated by TLC")
+TEXT["C05"] = cluster_text(
+    "Formed clusters of 3..5 (..8) real instances with renewable identities, notify_down_members and periodic announce to down "
+    "members: every split shape, partition held until both sides declared each other Down (checked, counted), heal instants swept over "
+    "one announce period, plus the asymmetric single-false-Down case. TLC evaluates MonCluster!C05: never Defunct, every Rejoin wins, "
+    "everyone lists everyone's current identity within 8 announce-to-down periods, told-down => Rejoin => Active afterwards.",
+    "cluster simulator (partition/heal) on real instances + TLA+ monitor (MonCluster!C05) evaluated by TLC")
+TEXT["C18"] = cluster_text(
+    "2 and 3 real instances are put in random mutual-knowledge states (absent/alive/suspect/down/older generation, defunct or not, "
+    "pending suspicions in the backlog, renewable or not, notify_down_members on/off), timers are held, one datagram of every kind is "
+    "injected and the resulting datagrams are delivered in random order. TLC evaluates MonCluster!C18: at most 2*fanout+2 datagrams per "
+    "delivery and an empty network within the cap 50 + 4*maxtx*n^2*fanout. Complete traces are also checked for conformance.",
+    "cluster simulator with timers held on real instances + TLA+ monitor (MonCluster!C18) evaluated by TLC")
